@@ -323,8 +323,8 @@ VARIANTS = {'open': 2, 'openLow': 2, 'openHold1': 2, 'operational': 4, 'notifica
 class Remote:
     """Bytes of every message class, built from a mirrored neighbor (real OPEN through the real encoder)."""
 
-    def __init__(self, peer_hold: int = 180) -> None:
-        _, pn = sessions.make_config(local_as=65001, peer_as=65000, local_address='127.0.0.1', peer_address='127.0.0.1')
+    def __init__(self, peer_hold: int = 180, families: str | None = None) -> None:
+        _, pn = sessions.make_config(local_as=65001, peer_as=65000, local_address='127.0.0.1', peer_address='127.0.0.1', **({'families': families} if families else {}))
         pn.session.router_id = RouterID(ID_HIGH)
         pn.hold_time = type(pn.hold_time)(peer_hold)
         self.pn = pn
@@ -530,6 +530,7 @@ class SessionRig:
         self.task: asyncio.Task | None = None
         self.crashed = False
         self.remote = Remote(self.cfg['peer_hold'])
+        self.remotes: dict[int, Remote] = {}  # connection id -> a remote speaker with other capabilities (run_flap_scenario: the families of its OPEN)
         self._env_saved: dict = {}
         self._build_peer()
 
@@ -777,7 +778,7 @@ class SessionRig:
             cid, kind = ev[1], ev[2]
             if self.remote_open.get(cid):
                 try:
-                    self.remote_socks[cid].sendall(self.remote.bytes_of(kind, int(ev[3]) if len(ev) > 3 else 0))
+                    self.remote_socks[cid].sendall(self.remotes.get(cid, self.remote).bytes_of(kind, int(ev[3]) if len(ev) > 3 else 0))
                     self.sent_ok = True
                 except OSError:
                     pass
@@ -1850,7 +1851,7 @@ def run_hold_scenario(hold_time: int, arrivals_ms: list[int], until_ms: int | No
     return out
 
 
-def run_flap_scenario(routes_text: list[str], cut_after_n_messages: int, ops_while_down: list[list], adj_rib_out: bool = True, max_ticks: int = 400, neighbor_opts: dict | None = None) -> dict:
+def run_flap_scenario(routes_text: list[str], cut_after_n_messages: int, ops_while_down: list[list], adj_rib_out: bool = True, max_ticks: int = 400, neighbor_opts: dict | None = None, peer_families: list | None = None) -> dict:
     """Session loss and resynchronisation on the real Peer (C11 end to end).
 
     `routes_text`: configured routes (text grammar, e.g. 'route 10.0.0.0/24 next-hop 192.0.2.1 med 1').
@@ -1863,6 +1864,11 @@ def run_flap_scenario(routes_text: list[str], cut_after_n_messages: int, ops_whi
     Returns {'first': [(kind, hex)], 'second': [(kind, hex)]}: every message the remote received in
     each session after our OPEN + KEEPALIVE (kind as `classify`: UPDATE, EOR, ...), in order."""
     rig = SessionRig({'routes': 0, 'hold': 180})
+    # `peer_families`: [families of the peer's OPEN on the first connection, on the second] (None: all we configure) —
+    # an operator enabling a family on the router between two sessions
+    for cid, fams in enumerate(peer_families or [], start=1):
+        if fams:
+            rig.remotes[cid] = Remote(180, fams)
     n = rig.neighbor
     n.rib.outgoing.cache = adj_rib_out
     for k, v in (neighbor_opts or {}).items():  # rarely used settings of the neighbor: rate_limit (one route per loop iteration), group_updates
